@@ -3299,6 +3299,14 @@ class SEVM:
                             cond = dst.as_z3() == target
                             new_ex = self.create_branch(ex, cond, target)
                             stack.push(new_ex)
+
+                        # the destination may also be none of the valid jump destinations
+                        invalid_dst = And(
+                            *[dst.as_z3() != t for t in ex.pgm.valid_jumpdests()]
+                        )
+                        if ex.check(invalid_dst) != unsat:
+                            ex.path.append(invalid_dst, branching=True)
+                            raise InvalidJumpDestError(dst)
                     else:
                         raise NotConcreteError(f"symbolic JUMP target: {dst}")
 
